@@ -178,3 +178,33 @@ pub fn gen_position(c: &mut Ctx, reg: &str) -> Option<(String, String)> {
     let _ = path_at(&e, &p)?;
     Some((r, p))
 }
+
+/// A deep structure: a small node (`1 [ "second": "bottom" ]`) under `depth` levels of wrappers (or, with `mix`, alternately a
+/// wrapper and a record `n [ "prev": <inner> ]`).  `chain` holds a register for every element on the way from the top down to
+/// the inner assertion (nodes, assertions, wrapped elements), top first.
+pub struct Deep { pub top: String, pub chain: Vec<String>, pub bottom: String, pub second: String, pub depth: usize }
+
+pub fn gen_deep(c: &mut Ctx, depth: usize, mix: bool) -> Deep {
+    let bottom = c.assign("leaf 66626f74746f6d");
+    let second = c.assign("leaf 667365636f6e64");
+    let a = c.assign(&format!("assertion {} {}", second, bottom));
+    let s = c.assign("leaf 01");
+    let inner = c.assign(&format!("add {} {}", s, a));
+    let mut chain = vec![a, inner.clone()];
+    let mut cur = inner;
+    for lvl in 0..depth {
+        if !mix || lvl % 2 == 0 { cur = c.assign(&format!("wrap {}", cur)); chain.push(cur.clone()); }
+        else {
+            let p = c.assign("leaf 6470726576");
+            let asr = c.assign(&format!("assertion {} {}", p, cur));
+            let subj = c.assign(&format!("leaf {}", hex::encode(dcbor::CBOR::from(lvl as u64).to_cbor_data())));
+            cur = c.assign(&format!("add {} {}", subj, asr));
+            chain.push(asr); chain.push(cur.clone());
+        }
+    }
+    chain.reverse();
+    c.count(&format!("deep:{}", depth));
+    Deep { top: cur, chain, bottom, second, depth }
+}
+
+pub fn deep_depths(thorough: bool) -> Vec<usize> { if thorough { vec![31, 63, 64, 65, 127, 128, 129, 255, 256, 257, 513] } else { vec![63, 65, 129, 257] } }
